@@ -515,6 +515,11 @@ fn oracle_of(panic_msg: &str) -> String {
         }
     }
     let l = panic_msg.to_lowercase();
+    if l.contains("already borrowed") || l.contains("already mutably borrowed") {
+        // std thread-local RefCell state shared between shuttle tasks (shuttle runs all tasks on one
+        // OS thread): an artefact of the simulation, not an interleaving of real threads
+        return "harness-limit-thread-local".into();
+    }
     if l.contains("deadlock") {
         return "deadlock".into();
     }
@@ -741,6 +746,10 @@ fn driver(tier: &str) -> i32 {
         if f.panic.starts_with("HARNESS:") {
             eprintln!("HARNESS-ERROR: {}", f.panic);
             return 2;
+        }
+        if oracle_of(&f.panic) == "harness-limit-thread-local" {
+            eprintln!("HARNESS-ERROR: the code under test keeps state in std thread-local storage on the cache path; shuttle runs all simulated threads on one OS thread, so their thread-locals alias ({}). This is a limit of the simulation, not a reported violation; the sequential engine still runs.", f.panic.lines().next().unwrap_or(""));
+            return 3;
         }
         violations = 1;
         let oracle = oracle_of(&f.panic);
